@@ -29,6 +29,9 @@ ASSUMPTIONS = [
     "a write word the crossing takes before its command is accepted is bound to that command (k-th write word <-> k-th write command)",
     "whole-core runs: controller settings are legal ControllerSettings values; 'deepq' runs use cmd_buffer_depth=16, refresh_postponing=8",
     "D_AsyncFifo models migen.genlib.fifo.AsyncFIFO (outside /repo) and is bound at the channel interfaces only",
+    "DESIGN D11 settled: with rdata.ready = 1 the rdata FIFO holds at most (reads the memory side can hold) + cmd_depth words for "
+    "ANY clocking (TLC, MC_CrossingRd, bound tight); the crossing built by get_port (4/16/16) is therefore safe for the default "
+    "cmd_buffer_depth = 8 (9 + 4 <= 16 when the controller stalls) and loses words for cmd_buffer_depth = 16 (the 'deepq' runs)",
 ]
 
 PAIRS = {                       # (user [period, phase], sys [period, phase]); even periods (Migen halves them)
@@ -136,6 +139,7 @@ def execute(sc, workdir):
     nontrivial = []
     tids = {}
     runs = []
+    peaks = {}                     # peak occupancies seen in this scenario (reported in the sample, not summed)
     stop_at = sc.get("confirm_hint")
     if sc["kind"] == "cdc":
         for j, sub in enumerate(sc["subs"]):
@@ -192,7 +196,7 @@ def execute(sc, workdir):
             stats[k] += r["stats"][k]
         stats["words_cmd"] += n[("CMD", "u")]; stats["words_wdata"] += n[("WDATA", "u")]; stats["words_rdata"] += n[("RDATA", "u")]
         for k in ("rdata_fifo_max", "wdata_fifo_max", "mem_outstanding_max"):
-            stats["max_" + k] = max(stats.get("max_" + k, 0), r["stats"][k])
+            peaks[k] = max(peaks.get(k, 0), r["stats"][k])
         mode = d.get("mode", "both")
         used = (n[("CMD", "u")] > 0 and (mode == "read" or n[("WDATA", "u")] > 0) and (mode == "write" or n[("RDATA", "u")] > 0))
         if used:
@@ -228,6 +232,7 @@ def execute(sc, workdir):
     stats["model_drift"] = len(drift)
     if sample is not None:
         sample["model_drift"] = drift[:3]
+        sample["peaks"] = peaks
     return dict(bad=bad, evaluations=len(lines), nontrivial=nontrivial, traces=len(runs), sample=sample, stats=stats,
                 confirm_hint=hint, drift=drift[:5])
 
